@@ -73,25 +73,71 @@ def mesh_1d(check, proj, clsname):
             for ev in mb.int_events:
                 hyp = A.subst(hyp, {next(iter(A.atoms_of(ev["atom"]))): ev["expr"]})
             s2 = A.sign(hyp)
-            if s2 == "+":
-                check.ok("MESH-MONO", q, "spacing of zone %d is positive (with the zone size at its exact proportion)" % (i + 1), loc)
+            # the zone size is the ROUNDED proportion: any integer within 1/2 (rounding) or below by
+            # less than 1 (truncation) of the real value.  Witness search over small meshes and a grid
+            # of ratios / proportions, with the integer computed from the real value as the code does.
+            w = _mono_witness(A, sp, mb)
+            if w is not None:
+                check.violation("MESH-MONO", q, "spacing of zone %d is %.4g <= 0 for %s: the zone sizes are rounded to integers but the cell size is computed from the real-valued proportion, so the first zone can already exceed the length and the faces of the second one run backwards (negative cell volumes)" % (i + 1, w[0], w[1]), loc, key="mono-%d" % (i + 1))
+            elif s2 == "+":
+                check.ok("MESH-MONO", q, "spacing of zone %d is positive with the zone size at its exact proportion, and on every small mesh of the witness grid with the rounded size" % (i + 1), loc)
             else:
                 check.undecided("MESH-MONO", q, "sign of the spacing of zone %d not established" % (i + 1), loc)
     # MESH-REFINED + INT-TRUNC
-    for ev in mb.int_events:
-        if not ev["rounded"]:
-            check.violation("INT-TRUNC", q, "float quotient %s converted with bare int(): 9.999999999999998 truncates to 9 although the proportion is a whole number of cells" % A.show(ev["expr"], 80), loc, key="int-trunc")
-        else:
-            check.ok("INT-TRUNC", q, "cell count int(round(%s)) is rounding-safe" % A.show(ev["expr"], 60), loc)
+    robust = False
     if sq.parts and "ratio" in mb.params:
         a, b = sq.parts
-        sub = {}
-        for ev in mb.int_events:
-            sub[next(iter(A.atoms_of(ev["atom"])))] = ev["expr"]
-        s1, s2 = A.subst(a.spacing, sub), A.subst(b.spacing, sub)
-        _decide(check, "MESH-REFINED", q, loc, A, s2, mb.params["ratio"] * s1,
-                "second-zone spacing == ratio * first-zone spacing when the proportion is a whole number of cells", key="ratio")
+        # does the ratio hold for ANY integer zone size (cell size computed from the actual counts)?
+        robust = A.equal(b.spacing, mb.params["ratio"] * a.spacing)
+        if robust:
+            check.ok("MESH-REFINED", q, "second-zone spacing == ratio * first-zone spacing for every zone size the rounding can produce (the cell size is computed from the actual cell counts)", loc)
+        else:
+            sub = {}
+            for ev in mb.int_events:
+                sub[next(iter(A.atoms_of(ev["atom"])))] = ev["expr"]
+            s1, s2 = A.subst(a.spacing, sub), A.subst(b.spacing, sub)
+            _decide(check, "MESH-REFINED", q, loc, A, s2, mb.params["ratio"] * s1,
+                    "second-zone spacing == ratio * first-zone spacing when the proportion is a whole number of cells", key="ratio")
         _decide(check, "MESH-COUNT", q, loc, A, a.count + b.count, n1, "zone sizes nc1 + (nc2+1) == ncell+1", key="zones")
+    for ev in mb.int_events:
+        if ev["rounded"]:
+            check.ok("INT-TRUNC", q, "cell count int(round(%s)) is rounding-safe" % A.show(ev["expr"], 60), loc)
+        else:
+            check.violation("INT-TRUNC", q, "float quotient %s converted with bare int(): 9.999999999999998 truncates to 9 although the requested proportion is a whole number of cells -- the first zone gets one cell fewer than requested%s" % (A.show(ev["expr"], 80), "" if robust else ", and the size ratio holds only at the exact proportion"), loc, key="int-trunc")
+
+
+def _mono_witness(A, sp, mb):
+    """-> (value, text) of a non-positive spacing on the witness grid, or None"""
+    import itertools
+    names = {"ncell": None, "length": 1.0}
+    ints = [(next(iter(A.atoms_of(ev["atom"]))), ev) for ev in mb.int_events]
+    saved = dict(A.point_hooks)
+    try:
+        for n, r, a, b in itertools.product(range(2, 41), (0.1, 0.25, 0.5, 2.0, 4.0, 10.0), (0.5, 1.0, 2.0, 5.0, 9.0), (1.0, 2.0, 3.0)):
+            vals = {"ncell": float(n), "length": 1.0, "ratio": r, "nratioa": a, "nratiob": b, "x0": 0.0}
+            for nm, v in vals.items():
+                A.point_hooks[nm] = (lambda k, v=v: v)
+            k = 9000
+            A._memo.pop(k, None)
+            ok = True
+            for aid, ev in ints:
+                x = A.evalf(ev["expr"], k)
+                if x is None:
+                    ok = False
+                    break
+                xi = float(round(float(x))) if ev["rounded"] else float(int(float(x)))
+                A.point_hooks[A.atoms[aid].name] = (lambda k, v=xi: v)
+            A._memo.pop(k, None)
+            if not ok:
+                continue
+            v = A.evalf(sp, k)
+            if v is not None and not v.is_nan() and float(v) <= 0.0:
+                ctx = ", ".join("%s=%g" % (nm, vals[nm]) for nm in ("ncell", "ratio", "nratioa", "nratiob")) + "; " + ", ".join("%s=%g" % (A.atoms[aid].name, A.point_hooks[A.atoms[aid].name](k)) for aid, ev in ints)
+                return float(v), ctx
+        return None
+    finally:
+        A.point_hooks.clear()
+        A.point_hooks.update(saved)
 
 
 def averages(check, proj):
